@@ -9,3 +9,5 @@ import Juniper.Props.C05
 import Juniper.Props.C15Heap
 import Juniper.Props.C06
 import Juniper.Props.C11
+import Juniper.Props.C16
+import Juniper.Props.C18
